@@ -248,17 +248,51 @@ package keeper
 // respondent dealt a share for the complainant, and the cryptographic check accepts the complainant's and the
 // respondent's one-time keys, the key sym, the signature, THE SHARE THE RESPONDENT ENCRYPTED FOR THE COMPLAINANT
 // and the respondent's commitments.
+//@ spec complaintOK(s Store, g Int, c types.Complaint) Bool = has(s, types.Round1InfoStoreKey(g, c.Complainant))
+//@       && has(s, types.Round1InfoStoreKey(g, c.Respondent))
+//@       && has(s, types.Round2InfoStoreKey(g, c.Respondent))
+//@       && shareSlot(c.Respondent, c.Complainant) < len(r2At(s, g, c.Respondent).EncryptedSecretShares)
+//@       && tss.validComplaint(r1At(s, g, c.Complainant).OneTimePubKey, r1At(s, g, c.Respondent).OneTimePubKey,
+//@             c.KeySym, c.Signature,
+//@             r2At(s, g, c.Respondent).EncryptedSecretShares[shareSlot(c.Respondent, c.Complainant)],
+//@             c.Complainant, r1At(s, g, c.Respondent).CoefficientCommits)
+//@ spec okComplaintIDs(c types.Complaint) Bool = 1 <= c.Complainant && 1 <= c.Respondent && c.Complainant != c.Respondent && c.Complainant <= MaxInt64 && c.Respondent <= MaxInt64
 //@ func (k Keeper) VerifyComplaint
-//@ requires 1 <= complaint.Complainant && 1 <= complaint.Respondent && complaint.Complainant != complaint.Respondent
-//@ requires complaint.Complainant <= MaxInt64 && complaint.Respondent <= MaxInt64
-//@ ensures err == nil <==> (has(Store_tss, types.Round1InfoStoreKey(groupID, complaint.Complainant))
-//@       && has(Store_tss, types.Round1InfoStoreKey(groupID, complaint.Respondent))
-//@       && has(Store_tss, types.Round2InfoStoreKey(groupID, complaint.Respondent))
-//@       && shareSlot(complaint.Respondent, complaint.Complainant) < len(r2At(Store_tss, groupID, complaint.Respondent).EncryptedSecretShares)
-//@       && tss.validComplaint(r1At(Store_tss, groupID, complaint.Complainant).OneTimePubKey, r1At(Store_tss, groupID, complaint.Respondent).OneTimePubKey,
-//@             complaint.KeySym, complaint.Signature,
-//@             r2At(Store_tss, groupID, complaint.Respondent).EncryptedSecretShares[shareSlot(complaint.Respondent, complaint.Complainant)],
-//@             complaint.Complainant, r1At(Store_tss, groupID, complaint.Respondent).CoefficientCommits))
+//@ requires okComplaintIDs(complaint)
+//@ ensures err == nil <==> complaintOK(Store_tss, groupID, complaint)
+
+// marking a member malicious sets that flag in that member's record and changes nothing else
+//@ func (k Keeper) MarkMemberMalicious
+//@ modifies Store_tss
+//@ requires wfMember(Store_tss, groupID, memberID)
+//@ ensures err == nil <==> old(has(Store_tss, types.MemberStoreKey(groupID, memberID)))
+//@ ensures err != nil ==> Store_tss == old(Store_tss)
+//@ ensures err == nil ==> has(Store_tss, types.MemberStoreKey(groupID, memberID)) && memberAt(Store_tss, groupID, memberID) == with(old(memberAt(Store_tss, groupID, memberID)), "IsMalicious", true)
+//@ ensures forall q Bz :: q != types.MemberStoreKey(groupID, memberID) ==> Store_tss[q] == old(Store_tss)[q]
+
+// C04: every complaint is judged against the round-1/round-2 data as it stood; a complaint that verifies blames the
+// RESPONDENT (the dealer cheated), one that does not blames the COMPLAINANT (false accusation) - never anybody else:
+// a member's malicious flag is raised only as the respondent of a valid complaint or the complainant of an invalid one.
+// Only member records change.
+//@ func (k Keeper) ProcessComplaint
+//@ modifies Store_tss
+//@ requires forall j :: 0 <= j && j < len(complaints) ==> okComplaintIDs(complaints[j])
+//@ requires forall m Int :: wfMember(Store_tss, groupID, m)
+//@ ensures forall q Bz :: !iskey(types.MemberStoreKey, q) ==> Store_tss[q] == old(Store_tss)[q]
+//@ ensures err == nil ==> len(result) == len(complaints) && (forall j :: 0 <= j && j < len(complaints) ==> result[j].Complaint == complaints[j]
+//@        && (result[j].ComplaintStatus == (complaintOK(old(Store_tss), groupID, complaints[j]) ? types.COMPLAINT_STATUS_SUCCESS : types.COMPLAINT_STATUS_FAILED)))
+//@ ensures err == nil ==> (forall j :: 0 <= j && j < len(complaints) ==>
+//@        memberAt(Store_tss, groupID, (complaintOK(old(Store_tss), groupID, complaints[j]) ? complaints[j].Respondent : complaints[j].Complainant)).IsMalicious)
+//@ ensures forall m Int :: has(Store_tss, types.MemberStoreKey(groupID, m)) && memberAt(Store_tss, groupID, m).IsMalicious && !old(memberAt(Store_tss, groupID, m)).IsMalicious ==>
+//@        (exists j :: 0 <= j && j < len(complaints) && m == (complaintOK(old(Store_tss), groupID, complaints[j]) ? complaints[j].Respondent : complaints[j].Complainant))
+//@ loop 0: invariant forall q Bz :: !iskey(types.MemberStoreKey, q) ==> Store_tss[q] == old(Store_tss)[q]
+//@ loop 0: invariant forall m Int :: wfMember(Store_tss, groupID, m)
+//@ loop 0: invariant len(complaintsWithStatus) == #i && (forall j :: 0 <= j && j < #i ==> complaintsWithStatus[j].Complaint == complaints[j]
+//@        && (complaintsWithStatus[j].ComplaintStatus == (complaintOK(old(Store_tss), groupID, complaints[j]) ? types.COMPLAINT_STATUS_SUCCESS : types.COMPLAINT_STATUS_FAILED)))
+//@ loop 0: invariant forall j :: 0 <= j && j < #i ==> memberAt(Store_tss, groupID, (complaintOK(old(Store_tss), groupID, complaints[j]) ? complaints[j].Respondent : complaints[j].Complainant)).IsMalicious
+//@ loop 0: invariant forall m Int :: has(Store_tss, types.MemberStoreKey(groupID, m)) && memberAt(Store_tss, groupID, m).IsMalicious && !old(memberAt(Store_tss, groupID, m)).IsMalicious ==>
+//@        (exists j :: 0 <= j && j < #i && m == (complaintOK(old(Store_tss), groupID, complaints[j]) ? complaints[j].Respondent : complaints[j].Complainant))
+//@ loop 0: invariant forall m Int :: has(Store_tss, types.MemberStoreKey(groupID, m)) <==> old(has(Store_tss, types.MemberStoreKey(groupID, m)))
 
 // ---- C03 / C10: submitting a signature share ------------------------------------------------------------
 //@ spec psigHas(s Store, id Int, n Int, m Int) Bool = has(s, types.PartialSignatureStoreKey(id, n, m))
@@ -284,3 +318,60 @@ package keeper
 //@        && ((psigCount(Store_tss, req.SigningID, sa.Attempt) == len(sa.AssignedMembers)) ==> (let np = dec(types.PendingProcessSignings, Store_tss[types.PendingSigningsStoreKey]).SigningIDs in len(np) == len(old(pendingSids(Store_tss))) + 1 && np[len(np) - 1] == req.SigningID && (forall i :: 0 <= i && i < len(np) - 1 ==> np[i] == old(pendingSids(Store_tss))[i])))
 //@        && ((psigCount(Store_tss, req.SigningID, sa.Attempt) != len(sa.AssignedMembers)) ==> Store_tss[types.PendingSigningsStoreKey] == old(Store_tss)[types.PendingSigningsStoreKey])
 //@        && (forall q Bz :: q != types.PartialSignatureStoreKey(req.SigningID, sa.Attempt, req.MemberID) && q != types.PartialSignatureCountStoreKey(req.SigningID, sa.Attempt) && q != types.PendingSigningsStoreKey ==> Store_tss[q] == old(Store_tss)[q]))
+
+// ---- C04: end of group creation -------------------------------------------------------------------------------
+// all member records of a group, in key order; an error iff there are none
+//@ func (k Keeper) GetGroupMembers
+//@ ensures err == nil ==> (forall j :: 0 <= j && j < len(result) ==> (exists q Bz :: has(Store_tss, q) && hasprefix(q, types.MembersStoreKey(groupID)) && result[j] == dec(types.Member, Store_tss[q])))
+//@ ensures err == nil ==> (forall q Bz :: has(Store_tss, q) && hasprefix(q, types.MembersStoreKey(groupID)) ==> (exists j :: 0 <= j && j < len(result) && result[j] == dec(types.Member, Store_tss[q])))
+//@ ensures err != nil ==> (forall q Bz :: !(has(Store_tss, q) && hasprefix(q, types.MembersStoreKey(groupID))))
+//@ loop 0: invariant 0 <= itpos(iterator) && itpos(iterator) <= itlen(iterator) && len(members) == itpos(iterator)
+//@ loop 0: invariant forall j :: 0 <= j && j < len(members) ==> members[j] == dec(types.Member, itval(iterator, j))
+
+// "some member record of the group is flagged malicious"
+//@ spec anyMalicious(s Store, g Int) Bool = exists q Bz :: has(s, q) && hasprefix(q, types.MembersStoreKey(g)) && dec(types.Member, s[q]).IsMalicious
+
+// C04: a group whose members have all confirmed or complained leaves round 3 as ACTIVE exactly when NO member
+// record is flagged malicious, and as FALLEN otherwise; rounds 1 and 2 just advance (round 1 also fixes the group
+// key = accumulated commitment 0). Only this group's record is written in the tss store.
+//@ func (k Keeper) HandleProcessGroup
+//@ may_panic
+//@ modifies Store_tss, Other, Bank
+//@ requires has(Store_tss, types.GroupStoreKey(groupID)) ==> groupAt(Store_tss, groupID).ID == groupID
+//@ ensures forall q Bz :: q != types.GroupStoreKey(groupID) ==> Store_tss[q] == old(Store_tss)[q]
+//@ ensures old(groupAt(Store_tss, groupID)).Status == types.GROUP_STATUS_ROUND_3 ==> groupAt(Store_tss, groupID) == with(old(groupAt(Store_tss, groupID)), "Status", (old(anyMalicious(Store_tss, groupID)) ? types.GROUP_STATUS_FALLEN : types.GROUP_STATUS_ACTIVE))
+//@ ensures old(groupAt(Store_tss, groupID)).Status == types.GROUP_STATUS_ROUND_2 ==> groupAt(Store_tss, groupID) == with(old(groupAt(Store_tss, groupID)), "Status", types.GROUP_STATUS_ROUND_3)
+//@ ensures old(groupAt(Store_tss, groupID)).Status == types.GROUP_STATUS_ROUND_1 ==> groupAt(Store_tss, groupID) == with(with(old(groupAt(Store_tss, groupID)), "Status", types.GROUP_STATUS_ROUND_2), "PubKey", old(Store_tss)[types.AccumulatedCommitStoreKey(groupID, 0)])
+//@ ensures (old(groupAt(Store_tss, groupID)).Status != types.GROUP_STATUS_ROUND_1 && old(groupAt(Store_tss, groupID)).Status != types.GROUP_STATUS_ROUND_2 && old(groupAt(Store_tss, groupID)).Status != types.GROUP_STATUS_ROUND_3) ==> Store_tss == old(Store_tss)
+
+// interim DKG data of one group (iterator deletions): never touches group records or the counters
+//@ func (k Keeper) DeleteAllDKGInterimData
+//@ trusted
+//@ modifies Store_tss
+//@ ensures forall g Int :: Store_tss[types.GroupStoreKey(g)] == old(Store_tss)[types.GroupStoreKey(g)]
+//@ ensures Store_tss[types.GroupCountStoreKey] == old(Store_tss)[types.GroupCountStoreKey] && Store_tss[types.LastExpiredGroupIDStoreKey] == old(Store_tss)[types.LastExpiredGroupIDStoreKey] && Store_tss[types.ParamsKey] == old(Store_tss)[types.ParamsKey]
+
+//@ spec lastExpiredGroup(s Store) Int = u64of(s[types.LastExpiredGroupIDStoreKey])
+//@ spec groupCount(s Store) Int = u64of(s[types.GroupCountStoreKey])
+// store invariant of the group id space
+//@ spec wfGroups(s Store) Bool = groupCount(s) < MaxUint64 && lastExpiredGroup(s) <= groupCount(s)
+//@      && (forall g Int :: lastExpiredGroup(s) < g && g <= groupCount(s) ==> has(s, types.GroupStoreKey(g)) && groupAt(s, g).ID == g)
+// C04: group creation that is still unfinished when its creation period has passed ends as EXPIRED; a group that
+// already ended (ACTIVE or FALLEN) keeps its status; groups are passed in id order and only once their creation
+// period is over; nothing but the records of the groups passed (and the cursor) changes among group records.
+//@ func (k Keeper) HandleExpiredGroups
+//@ modifies Store_tss, Other, Bank
+//@ requires wfGroups(Store_tss)
+//@ ensures  old(lastExpiredGroup(Store_tss)) <= lastExpiredGroup(Store_tss) && lastExpiredGroup(Store_tss) <= old(groupCount(Store_tss))
+//@ ensures  forall g Int :: old(lastExpiredGroup(Store_tss)) < g && g <= lastExpiredGroup(Store_tss) ==>
+//@        (let o = old(groupAt(Store_tss, g)) in
+//@         wrapu64(o.CreatedHeight + old(tssParams(Store_tss)).CreationPeriod) <= wrapu64(ctx.BlockHeight())
+//@         && groupAt(Store_tss, g) == ((o.Status != types.GROUP_STATUS_ACTIVE && o.Status != types.GROUP_STATUS_FALLEN) ? with(o, "Status", types.GROUP_STATUS_EXPIRED) : o))
+//@ ensures  forall g Int :: g > lastExpiredGroup(Store_tss) || g <= old(lastExpiredGroup(Store_tss)) ==> Store_tss[types.GroupStoreKey(g)] == old(Store_tss)[types.GroupStoreKey(g)]
+//@ loop 0: invariant old(lastExpiredGroup(Store_tss)) + 1 <= groupID && groupID <= latestGroupID + 1 && latestGroupID == old(groupCount(Store_tss)) && latestGroupID < MaxUint64
+//@ loop 0: invariant Store_tss[types.ParamsKey] == old(Store_tss)[types.ParamsKey] && Store_tss[types.LastExpiredGroupIDStoreKey] == old(Store_tss)[types.LastExpiredGroupIDStoreKey]
+//@ loop 0: invariant forall g Int :: old(lastExpiredGroup(Store_tss)) < g && g < groupID ==>
+//@        (let o = old(groupAt(Store_tss, g)) in
+//@         wrapu64(o.CreatedHeight + old(tssParams(Store_tss)).CreationPeriod) <= wrapu64(ctx.BlockHeight())
+//@         && groupAt(Store_tss, g) == ((o.Status != types.GROUP_STATUS_ACTIVE && o.Status != types.GROUP_STATUS_FALLEN) ? with(o, "Status", types.GROUP_STATUS_EXPIRED) : o))
+//@ loop 0: invariant forall g Int :: g >= groupID || g <= old(lastExpiredGroup(Store_tss)) ==> Store_tss[types.GroupStoreKey(g)] == old(Store_tss)[types.GroupStoreKey(g)]
